@@ -77,6 +77,51 @@ def check(run, prog, tier):
                       "the same inputs: in every branch `if time_dependent: TD(...) else: TI(...)` of get_RelaxationTensor the two "
                       "constructors get the same value for every option both of them take (cut-off time, operator form)", minimum=3)
     rule_K(run, prog)
+    run.rule("C07-L", "whatever form the relaxation tensor is in, propagate() hands back an evolution or refuses: every propagation "
+                      "routine the dispatcher can select ends, on every path, in `return <evolution>` or in an exception (a routine "
+                      "that is not written yet says so)", minimum=15)
+    rule_L(run, prog)
+
+
+def _ends_in_value(stmts):
+    if not stmts:
+        return False
+    last = stmts[-1]
+    if isinstance(last, ast.Return):
+        return last.value is not None and not (isinstance(last.value, ast.Constant) and last.value.value is None)
+    if isinstance(last, ast.Raise):
+        return True
+    if isinstance(last, ast.If):
+        return bool(last.orelse) and _ends_in_value(last.body) and _ends_in_value(last.orelse)
+    if isinstance(last, ast.With):
+        return _ends_in_value(last.body)
+    if isinstance(last, ast.Try):
+        return (_ends_in_value(last.body) or _ends_in_value(last.orelse)) and all(_ends_in_value(h.body) for h in last.handlers) \
+            or _ends_in_value(last.finalbody)
+    return False
+
+
+def rule_L(run, prog):
+    """'... generate the same propagated dynamics': with a relaxation tensor in operator form and an external field the
+    dispatcher of ReducedDensityMatrixPropagator.propagate selects routines of their own.  A routine that falls off its end
+    returns None - the caller gets no dynamics and no refusal."""
+    rid = "C07-L"
+    n = 0
+    for q in ("quantarhei.qm.propagators.rdmpropagator.ReducedDensityMatrixPropagator",
+              "quantarhei.qm.propagators.svpropagator.StateVectorPropagator"):
+        cls = prog.cls(q)
+        for nme, f in cls.methods.items():
+            if not isinstance(f.node, ast.FunctionDef) or "propagate_" not in nme:
+                continue
+            n += 1
+            prog.consulted.add(f.relpath)
+            body = [s_ for s_ in f.node.body if not (isinstance(s_, ast.Expr) and isinstance(s_.value, ast.Constant))]
+            run.obligation(rid, f.short, _ends_in_value(body), key="returns-evolution",
+                           message="%s can end without `return <evolution>` and without an exception: propagate() hands None to "
+                                   "the caller for this combination of tensor form and field, where the tensor form of the same "
+                                   "tensor gives an evolution" % f.short, loc=f.loc())
+    if n < 15:
+        raise AnalysisError("C07-L: only %d propagation routines found" % n)
 
 
 def rule_K(run, prog):
